@@ -236,6 +236,7 @@ func runC17b(c *Ctx) {
 // reaches the validity gate - whatever its type byte says - and the outcome, the deliveries and the stored position
 // are those of the model run on the same packets.
 func runC17e2e(c *Ctx) {
+	runC17maxPacket(c)
 	r := c.Rng
 	base := libraryGoroutines()
 	typeBytes := []int{27, 27, 4, 15, 16, 19, 2, 3, 34, 35, -1, -1}
@@ -299,3 +300,63 @@ func runC17e2e(c *Ctx) {
 		}
 	}
 }
+
+// runC17maxPacket: a received packet of the largest size one protocol packet can carry (2^24-1 bytes: the first 2^24-2
+// bytes of a longer well-formed event behind the status byte) followed by a packet holding the rest of that event.  Each
+// received packet is an event candidate of its own: the first is a truncated event and ends the stream with an error,
+// with the deliveries and the stored position of the events before it - whatever follows.  (Packets of this size are not
+// pushed through the model; the expectation is the specification's: the validity test rejects a truncated event.)
+func runC17maxPacket(c *Ctx) {
+	r := c.Rng
+	base := libraryGoroutines()
+	cfg := baseCfg(r, r.Intn(len(baseCfgs)))
+	h := genHistory(r, cfg, histOpts{seq: []string{"ddl", "ddl", "ddl"}, maxCols: 1, maxRows: 1, sameFormat: true})
+	h.encode(c)
+	if len(h.txs) != 3 {
+		return
+	}
+	f0, o0 := startOf(h)
+	evs, idx := h.serve(c, f0, uint32(o0))
+	at := -1
+	for i, x := range idx {
+		if x == h.txs[1].commitIdx {
+			at = i
+		}
+	}
+	if at < 0 {
+		return
+	}
+	small := evs[at]
+	crc := 0
+	if cfg.CRC {
+		crc = 4
+	}
+	pad := 1<<24 + 700 - len(small)
+	big := append([]byte{}, small[:len(small)-crc]...)
+	for i := 0; i < pad; i++ {
+		big = append(big, 'x')
+	}
+	big = append(big, small[len(small)-crc:]...)
+	binary.LittleEndian.PutUint32(big[9:], uint32(len(big)))
+	binary.LittleEndian.PutUint32(big[13:], binary.LittleEndian.Uint32(big[13:])+uint32(pad))
+	first, rest := big[:1<<24-2], big[1<<24-2:]
+	packets := append(append(append([][]byte{}, evs[:at]...), first, rest[1:]), evs[at+1:]...)
+	env, err := newE2E(h.tables, 77, nil)
+	if err != nil {
+		return
+	}
+	env.s.SetBinlogPosition(gobinlog.Position{Filename: f0, Offset: o0})
+	res := env.run(0, e2eAttempt{events: packets, terminal: "eof", cancelInHandler: -1, holdAfter: -1, firstByte: map[int]byte{at + 1: rest[0]}}, base)
+	env.close()
+	c.R.Count(fmt.Sprintf("e2e-inject/max-size-packet/crc%v", cfg.CRC))
+	desc := fmt.Sprintf("cfg=%s units=%v: served packet %d replaced by a packet of 2^24-1 bytes (the first 2^24-2 bytes of a %d-byte query event) and a packet with its last %d bytes", cfg, h.kinds, at, len(big), len(rest))
+	want := strs(h.expectedTxVals(c, h.txs[:1], f0, uint32(o0)))
+	got := acceptedOf(res.calls)
+	wantPos := gobinlog.Position{Filename: h.txs[0].nextFile, Offset: int64(h.txs[0].next)}
+	if !res.returned || res.streamErr == nil || res.outcome != "invalid" || !eqStrs(want, got) || res.stored != wantPos {
+		c.R.Add(vh.Mismatch{Kind: "spec", What: "e2e inject: a truncated event in a packet of the maximal size did not end the stream at the last commit boundary before it",
+			Case: desc, Expected: fmt.Sprintf("error (invalid data), 1 delivery, stored %v", wantPos),
+			Impl: fmt.Sprintf("returned=%v outcome=%.60s deliveries=%d stored=%v", res.returned, res.outcome, len(got), res.stored), InDomain: true})
+	}
+}
+
